@@ -67,7 +67,14 @@ func (vc *VC) heapWF(name, sym, alloc string) string {
 		if w == "true" {
 			return "true"
 		}
-		return "(forall ((r!h Int)) (! " + w + " :pattern ((select " + sym + " r!h))))"
+		if _, basic := under(et).(*types.Basic); basic {
+			// machine-integer ranges hold at every address (they cannot conflict with a callee's postcondition)
+			return "(forall ((r!h Int)) (! " + w + " :pattern ((select " + sym + " r!h))))"
+		}
+		// only allocated objects have well-formed reference fields: the fields of an object a callee is going to
+		// allocate are described by the callee's postcondition (a callee that `writes nothing` leaves the heap
+		// version unchanged)
+		return "(forall ((r!h Int)) (! (=> (and (<= 0 r!h) (< r!h " + alloc + ")) " + w + ") :pattern ((select " + sym + " r!h))))"
 	case strings.HasPrefix(name, "Mc$"):
 		return "(forall ((r!h Int)) (! (and (>= (select " + sym + " r!h) 0) (<= (select " + sym + " r!h) 9223372036854775807)) :pattern ((select " + sym + " r!h))))"
 	case strings.HasPrefix(name, "Mv$"):
@@ -81,7 +88,7 @@ func (vc *VC) heapWF(name, sym, alloc string) string {
 		if w == "true" {
 			return "true"
 		}
-		return "(forall ((r!h Int) (k!h " + k + ")) (! " + w + " :pattern ((select (select " + sym + " r!h) k!h))))"
+		return "(forall ((r!h Int) (k!h " + k + ")) (! (=> (and (<= 0 r!h) (< r!h " + alloc + ")) " + w + ") :pattern ((select (select " + sym + " r!h) k!h))))"
 	case strings.HasPrefix(name, "Md$"):
 		// the nil map has an empty domain
 		ks := vc.heapSort[name]
@@ -90,7 +97,7 @@ func (vc *VC) heapWF(name, sym, alloc string) string {
 		if et != nil {
 			// every key in a map's domain is a well-formed value of the key type
 			if w := vc.u.WF("k!h", et, alloc); w != "true" {
-				f = "(and " + f + " (forall ((r!h Int) (k!h " + k + ")) (! (=> (select (select " + sym + " r!h) k!h) " + w + ") :pattern ((select (select " + sym + " r!h) k!h)))))"
+				f = "(and " + f + " (forall ((r!h Int) (k!h " + k + ")) (! (=> (and (<= 0 r!h) (< r!h " + alloc + ") (select (select " + sym + " r!h) k!h)) " + w + ") :pattern ((select (select " + sym + " r!h) k!h)))))"
 			}
 		}
 		return f
@@ -114,7 +121,7 @@ func (vc *VC) heapWF(name, sym, alloc string) string {
 		if w == "true" {
 			return "true"
 		}
-		return "(forall ((r!h Int)) (! " + w + " :pattern ((select " + sym + " r!h))))"
+		return "(forall ((r!h Int)) (! (=> (and (<= 0 r!h) (< r!h " + alloc + ")) " + w + ") :pattern ((select " + sym + " r!h))))"
 	}
 	return "true"
 }
